@@ -128,7 +128,8 @@ macro_rules! with_digest {
 }
 
 pub fn run(ctx: &Ctx) {
-    let corpus = value_corpus(3, 256, if ctx.quick() { 16 } else { 32 });
+    // thorough: shapes up to 4 nodes, up to 48 values each
+    let corpus = if ctx.quick() { value_corpus(3, 256, 16) } else { value_corpus(4, 256, 48) };
     let algos: Vec<CrcAlgo> = ALL_CRC.to_vec();
     let calls = AtomicU64::new(0);
     let multi_blocks = AtomicU64::new(0);
